@@ -1,5 +1,7 @@
 (* C01 -- inbound stream integrity.  Statements only; proofs in Proofs/LoopData.v and Proofs/LoopProgress.v. *)
 From GV Require Import Lib.Trace Model.Loop Spec.LoopSpec Proofs.LoopData Proofs.LoopProgress.
+From GV Require Import Model.Elastic Spec.ElasticSpec Proofs.LoopBufferLink.
+From GV Require Model.Ring Model.LList.
 Open Scope Z_scope.
 
 (* For every input stream: what Read/Next/Peek/WriteTo hand to the handler is always the
@@ -20,3 +22,55 @@ Print Assumptions C01_inbound_integrity.
 Theorem C01_inbound_progress : forall i t, run_history i = Some t -> in_progress_ok (is_et i) t = true.
 Proof. exact in_progress_holds. Qed.
 Print Assumptions C01_inbound_progress.
+
+(* What licenses the FIFO list [c_in] of Model/Loop.v.  In gnet the inboundBuffer is an
+   elastic.RingBuffer; Model/Loop.v holds it as a plain byte list and works on it with ++,
+   ztake, zdrop, zlen and `match .. with [] => ..`.  For every method the Go code calls on it
+   (Write of the leftover read window in eventloop.read; Peek, Discard, Read, WriteTo,
+   Buffered, IsEmpty, Reset, Done in connection_unix.go), executed on the buffer model of C10
+   (Model/Elastic.v over the ring model of C09): if the representation invariant holds and the
+   abstract content (rcontent) is the list L the loop model holds, then the method does not
+   panic, returns what the loop model computes from L, keeps the invariant and leaves the
+   content the loop model stores.  [e] ranges over ALL states of the elastic ring buffer
+   (no ring / any ring satisfying C09's invariant), [c] is the capacity the pool would hand
+   back, the WriteTo writer is arbitrary (any script).  The last clause is the list identity
+   behind conn.Read / Next / Peek across the ring and the read window c.buffer.
+   Each clause is an instance of C10_elastic_ring_step (Proofs/LoopBufferLink.v). *)
+Theorem C01_inbound_buffer_link :
+  (forall e L c p, ering_inv e -> rcontent e = L -> 0 <= c -> Loop.zlen p <= 2^62 ->
+     exists e', RWrite e c p = Ret (e', (Loop.zlen p, XNil)) /\ ering_inv e' /\ rcontent e' = (L ++ p)%list) /\
+  (forall e L n, ering_inv e -> rcontent e = L ->
+     exists h t, RPeek e n = Ret (h, t) /\
+       (h ++ t)%list = (if n <=? 0 then L else Loop.ztake n L) /\
+       (0 < n -> (h ++ t)%list = Loop.ztake n L)) /\
+  (forall e L n, ering_inv e -> rcontent e = L ->
+     exists e' er, RDiscard e n = Ret (e', (Loop.zlen (Loop.ztake n L), er)) /\ ering_inv e' /\
+       rcontent e' = Loop.zdrop n L /\
+       (0 <= n <= Loop.zlen L -> Loop.zlen (Loop.ztake n L) = n) /\
+       (L <> [] -> er = XNil)) /\
+  (forall e L k, ering_inv e -> rcontent e = L -> 0 <= k ->
+     exists e' er, RRead e k = Ret (e', (Loop.ztake k L, Z.min k (Loop.zlen L), er)) /\ ering_inv e' /\
+       rcontent e' = Loop.zdrop k L /\
+       Loop.ztake k L = Loop.ztake (Z.min k (Loop.zlen L)) L /\
+       L = (Loop.ztake k L ++ rcontent e')%list /\
+       (L <> [] -> er = XNil)) /\
+  (forall e L sc, ering_inv e -> rcontent e = L ->
+     exists e' o, RWriteTo e sc = Ret (e', o) /\ ering_inv e' /\
+       0 <= Ring.wt_n o <= Loop.zlen L /\
+       Ring.wt_recv o = Loop.ztake (Ring.wt_n o) L /\
+       rcontent e' = Loop.zdrop (Ring.wt_n o) L /\
+       (of_rerr (Ring.wt_err o) = XNil -> Ring.wt_n o = Loop.zlen L /\ Ring.wt_recv o = L /\ rcontent e' = []) /\
+       (L = [] -> of_rerr (Ring.wt_err o) = XEmpty)) /\
+  (forall e L, ering_inv e -> rcontent e = L ->
+     RBuffered e = Loop.zlen L /\
+     RIsEmpty e = match L with [] => true | _ :: _ => false end /\
+     (RIsEmpty e = true <-> L = [])) /\
+  (forall e, ering_inv e ->
+     ering_inv (RReset e) /\ rcontent (RReset e) = [] /\
+     ering_inv (RDone e) /\ rcontent (RDone e) = [] /\
+     ering_inv (RDone (RReset e)) /\ rcontent (RDone (RReset e)) = []) /\
+  (ering_inv None /\ rcontent None = []) /\
+  (forall (L B : list Z) n, 0 <= n ->
+     Loop.ztake n (L ++ B)%list = (Loop.ztake n L ++ Loop.ztake (n - Loop.zlen (Loop.ztake n L)) B)%list).
+Proof. exact inbound_buffer_link. Qed.
+Print Assumptions C01_inbound_buffer_link.
